@@ -86,6 +86,11 @@ type oTarget struct {
 	Kind     string // "" | "dispatch"
 	NoEnv    bool   // generic helpers: no env parameter
 	Consumes bool   // slice parameters are consumed (re-used backing array): call sites must overwrite them
+	// the DESCENT (obj_descent.go)
+	Rec     bool   // recursion over the slab tree through a dispatcher: structural recursion on an extra argument `depth_`
+	Fuel    bool   // calls a dispatcher with a Rec implementation: takes `depth_` and passes it on
+	Mut     []int  // Rec: the positions (0 = receiver) the function changes - DECLARED (the dispatcher is generated first), checked after
+	Promote string // the method is promoted through this embedded interface field: translated from the wrapper Go's promotion stands for
 }
 
 type oEnvSpec struct {
@@ -113,6 +118,10 @@ type oUnit struct {
 	SubSums    map[string][]string // interface J implemented by some constructors of a closed interface: `_, ok := x.(J)`
 	SkipDefers map[string]bool     // `defer f(..)` of a function without effect on values (pool release): left out
 	EnvConsts  map[string]string   // source text of a call -> env constant (its Go type after `:`), e.g. "SlabIDStorable(id).ByteSize()"
+	// optional (descent, obj_descent.go)
+	Accessors map[string]string // "I.M": the method M of the closed interface I returns the pointer field of this name of every implementation: the call is an ALIAS of that field
+	NilOf     map[string]string // open interface (opaque) -> env constant that stands for its nil value
+	EnvFields map[string]string // "*T.f": field f (Go type after `:`) of the opaque struct T, read / written through env functions `T_f` / `T_set_f`
 }
 
 // ---------------------------------------------------------------------------------------------
@@ -438,6 +447,10 @@ type oshape struct {
 	noEnv    bool
 	consumes bool
 	tparams  map[string]oType
+	fuel     bool   // a Fuel target: takes `depth_` after env
+	rec      bool   // a Rec target: `lean env depth_` is the function
+	recDisp  string // a dispatcher with a Rec implementation: Lean name of that implementation (the dispatcher takes it as `rec_`)
+	recType  string // Lean type of the `rec_` parameter
 }
 
 type otrans struct {
@@ -464,6 +477,7 @@ type otrans struct {
 	droppedParams map[string]string
 	funcParams    map[string]string // dropped function-typed parameters (callbacks) -> their Go type
 	droppedLocals map[string]string // `var x *T` of a dropped type (the target of errors.As)
+	usesDepth     bool              // the body mentions `depth_` (a dispatcher with a Rec implementation is called)
 }
 
 var (
@@ -531,6 +545,8 @@ func (x *otrans) readPath(base string, steps []ostep) string {
 		switch st.kind {
 		case "field":
 			s = paren(s) + "." + st.name
+		case "accessor":
+			s = "(" + st.idx + "." + st.name + "_ " + paren(s) + ")"
 		default:
 			fail("internal: read through a %s step", st.kind)
 		}
@@ -552,6 +568,15 @@ func (x *otrans) update(base string, steps []ostep, val string) string {
 			fail("internal: path continues below a type assertion")
 		}
 		return "(." + st.name + " " + paren(val) + ")"
+	case "accessor":
+		// the pointer field `name` of whichever implementation of the closed interface `idx`
+		return "(" + st.idx + ".with_" + st.name + "_ " + paren(base) + " " + paren(x.update("("+st.idx+"."+st.name+"_ "+paren(base)+")", rest, val)) + ")"
+	case "some":
+		// the payload of a non-nil pointer of an opaque struct type (the nil check is a guard of the statement)
+		if len(rest) != 0 {
+			fail("internal: path continues below a pointer payload")
+		}
+		return "(some " + paren(val) + ")"
 	case "index":
 		if len(rest) != 0 {
 			fail("internal: path continues below an index")
@@ -670,6 +695,12 @@ func (x *otrans) coerce(v oval, want string) oval {
 			return oval{lean: "." + "nil", typ: want, fresh: true}
 		case "list":
 			return oval{lean: "[]", typ: want}
+		case "opaque":
+			if n, ok := x.u.NilOf[strings.TrimSpace(want)]; ok {
+				// the nil value of an open interface whose values are otherwise taken to be non-nil: an env constant
+				x.envFn(n, wi.Lean, "the nil `"+strings.TrimSpace(want)+"` (returned next to an error)")
+				return oval{lean: "env." + n, typ: want}
+			}
 		}
 		fail("nil used as %s", want)
 	case "untyped":
@@ -810,6 +841,14 @@ func (x *otrans) expr(e ast.Expr, en oenv, want string) oval {
 		}
 		if fv, ok := x.u.Fields[b.typ+"."+e.Sel.Name]; ok {
 			return oval{lean: paren(b.lean) + "." + fv.Lean, typ: fv.Type}
+		}
+		if ft, ok := x.u.EnvFields[strings.TrimSpace(b.typ)+"."+e.Sel.Name]; ok && bi.Kind == "optopaque" {
+			// field of an OPAQUE struct behind a pointer: read through an env function; a nil pointer is a panic
+			name := strings.TrimPrefix(strings.TrimSpace(b.typ), "*") + "_" + e.Sel.Name
+			x.envFn(name, bi.Payload+" → "+x.ti(ft).Lean, fmt.Sprintf("field `%s` of `%s` (read)", e.Sel.Name, strings.TrimSpace(b.typ)))
+			bind := x.tmp("p")
+			x.guards = append(x.guards, oguard{kind: "opt", e: b.lean, bind: bind})
+			return oval{lean: "(env." + name + " " + bind + ")", typ: ft}
 		}
 		fail("no field %s of %s", e.Sel.Name, b.typ)
 	case *ast.IndexExpr:
@@ -1197,6 +1236,28 @@ func (x *otrans) callShape(key string, sh oshape, recv *oval, args []ast.Expr, e
 	if !sh.noEnv {
 		callArgs = " env"
 	}
+	if sh.rec {
+		fail("%s is a Rec target: it is reached through its dispatcher only", key)
+	}
+	if sh.fuel {
+		if !x.t.Fuel {
+			fail("%s passes a depth on: the caller must be listed with Fuel", key)
+		}
+		callArgs += " depth_"
+		x.usesDepth = true
+	}
+	if sh.recDisp != "" {
+		// the dispatcher reaches the recursive implementation through a function parameter
+		switch {
+		case x.t.Rec && x.t.Lean == sh.recDisp:
+			callArgs += " rec_"
+		case x.t.Fuel:
+			callArgs += " (" + sh.recDisp + " env depth_)"
+		default:
+			fail("%s has the recursive implementation %s: the caller must be that implementation or be listed with Fuel", key, sh.recDisp)
+		}
+		x.usesDepth = true
+	}
 	var muts []olval
 	var mutT []string
 	argLv := make([]*olval, len(sh.params)+1)
@@ -1581,6 +1642,16 @@ func (x *otrans) method(b oval, name string, e *ast.CallExpr, en oenv, targets [
 		fail("call of %s, which is neither a target translated before this one nor an env method", key)
 	case "sum":
 		key := bi.Sum + "." + name
+		if f, ok := x.u.Accessors[key]; ok && len(e.Args) == 0 {
+			// `I.M()` returns the pointer field f of every implementation (checked by `oCheckAccessor`): an ALIAS of that field
+			ft := oCheckAccessor(x.u, key, f)
+			sumLean := x.u.Sums[bi.Sum].Lean
+			out := oval{lean: "(" + sumLean + "." + f + "_ " + paren(b.lean) + ")", typ: ft}
+			if b.lv != nil {
+				out.lv = &olval{b.lv.base, append(append([]ostep{}, b.lv.steps...), ostep{kind: "accessor", name: f, idx: sumLean})}
+			}
+			return out, nil
+		}
 		if sh, ok := oShapes[key]; ok && sh.ok {
 			return x.callShape(key, sh, &b, e.Args, en, targets)
 		}
@@ -1598,6 +1669,22 @@ func (x *otrans) method(b oval, name string, e *ast.CallExpr, en oenv, targets [
 			break
 		}
 		goT := strings.TrimSpace(b.typ)
+		if fd := funcs[strings.TrimPrefix(goT, "*")+"."+name]; fd != nil {
+			// a method of an OPAQUE struct type (`*MapExtraData`): an env function on the payload; the pointer must not be nil
+			key := strings.TrimPrefix(goT, "*") + "." + name
+			spec, ok := x.u.EnvMethods[key]
+			if !ok {
+				fail("call of %s, which is not listed as an env method", key)
+			}
+			bind := x.tmp("p")
+			x.guards = append(x.guards, oguard{kind: "opt", e: b.lean, bind: bind})
+			pv := oval{lean: bind, typ: "payload:" + goT}
+			if b.lv != nil {
+				pv.lv = &olval{b.lv.base, append(append([]ostep{}, b.lv.steps...), ostep{kind: "some"})}
+			}
+			return x.callEnv(strings.ReplaceAll(key, ".", "_"), spec, &pv, e.Args, oParamTypes(fd.Type), fieldTypes(fd.Type.Results), en,
+				fmt.Sprintf("`%s` (%s) on a non-nil pointer, a parameter", key, funcFile[key]))
+		}
 		mt := ifaceMethod(oIfaceOf(goT), name)
 		if mt == nil {
 			fail("interface %s has no method %s", goT, name)
@@ -1618,6 +1705,28 @@ func (x *otrans) method(b oval, name string, e *ast.CallExpr, en oenv, targets [
 	}
 	fail("method call %s on a value of type %s", name, b.typ)
 	return oval{}, nil
+}
+
+// oCheckAccessor: every implementation of `I.M` is literally `return recv.f`; the Go type of f
+func oCheckAccessor(u *oUnit, key, f string) string {
+	parts := strings.SplitN(key, ".", 2)
+	ft := ""
+	for _, im := range u.Sums[parts[0]].Impls {
+		st := strings.TrimPrefix(im.Go, "*")
+		fd := funcs[st+"."+parts[1]]
+		if fd == nil || fd.Recv == nil || len(fd.Recv.List[0].Names) != 1 || fd.Body == nil {
+			fail("accessor %s: %s.%s not found", key, st, parts[1])
+		}
+		if got, want := norm(src(fd.Body)), "{ return "+fd.Recv.List[0].Names[0].Name+"."+f+" }"; got != want {
+			fail("accessor %s: the body of %s.%s is `%s`, expected `%s`", key, st, parts[1], got, want)
+		}
+		t, ok := u.fieldType(st, f)
+		if !ok || (ft != "" && t != ft) {
+			fail("accessor %s: field %s of %s", key, f, st)
+		}
+		ft = t
+	}
+	return ft
 }
 
 // withGuards wraps text in the pending guards (innermost last) and clears them
